@@ -134,6 +134,9 @@ func main() {
 			}()
 			ch.Run(&props.Ctx{P: prog, R: r, Tier: *tier})
 		}()
+		if *tier == "thorough" && *overlay == "" {
+			selfTest(id, *repo, vdir, *tier, r)
+		}
 		r.Extra["load_s"] = loadT.Seconds()
 		if code := r.Finish(vdir, prog, t0, seed, strings.Join(os.Args, " ")); code > exit {
 			exit = code
